@@ -2,14 +2,21 @@
 
 S1  TLC explores spec/Throttle.tla (PlusCal; labels = th.* yield hooks of flow.ThrottlingChecker.DoCheck) for all
     interleavings of 3-4 callers and the clock and checks Spacing, BoundedWait, NoSpuriousReject (operators of
-    ThrottleProp).  The pinned algorithm (idle-branch CAS falling through to load / add / roll-back) is kept as a
-    spec-level mutant (CasLoop = FALSE): TLC must find its Spacing and NoSpuriousReject counterexamples, which are
-    replayed on the real code.
-S2  gate scenarios: TLC random simulation, the mutant's counterexamples, seeded random schedules;
-    sequential scenarios: seeded random rules (fractional / zero thresholds, batches 0..3, several statistic
-    intervals, queueing limits incl. 0) and arrival histories in virtual nanoseconds through api.Entry.
-S3  harness/cmd/c10 (gate on the th.* hooks / api.Entry with the virtual clock recording the requested Sleep).
-S4  spec/Throttle_Trace.tla (TLC) judges the recorded request-level traces with the same operators.
+    ThrottleProp).  Every request carries its own batch and its own THRESHOLD (an argument of each check: constant for
+    Direct rules, moving for MemoryAdaptive / WarmUp rules); the spacing it owes is computed from that threshold.
+    Two spec-level mutants must be refuted by TLC and their counterexamples are replayed on the real code:
+    the pinned algorithm (CasLoop = FALSE: idle-branch CAS falling through to load / add / roll-back) and a checker
+    that derives the per-token interval once, from its first request (PerCall = FALSE).
+S2  gate scenarios: TLC random simulation, the mutants' counterexamples, seeded random schedules (constant and
+    per-caller thresholds);
+    sequential scenarios in virtual nanoseconds: seeded random Direct rules (fractional / zero thresholds, batches 0..3,
+    several statistic intervals, queueing limits incl. 0) and MemoryAdaptive + Throttling rules whose effective threshold
+    is moved between requests with system_metric.SetSystemMemoryUsage, both through api.Entry; and direct DoCheck
+    calls on one checker with a different threshold argument from call to call.
+S3  harness/cmd/c10 (gate on the th.* hooks / api.Entry with the virtual clock recording the requested Sleep / DoCheck).
+S4  spec/Throttle_Trace.tla (TLC) judges the recorded request-level traces with the same operators; it derives the
+    threshold of a MemoryAdaptive request from the published memory usage (ThrottleProp!MemThr) and the owed spacing
+    from the request's own threshold (ThrottleProp!Iv).
 """
 import json, os, re
 from fractions import Fraction
@@ -19,28 +26,38 @@ from vlib import main, write_ndjson, read_ndjson, MachineryError
 CFG = """SPECIFICATION Spec
 CONSTANTS
   NC = %(nc)d
-  Iv <- %(iv)s
+  Bt <- %(bt)s
+  Th <- %(th)s
+  SI = %(si)d
   MaxQ = %(maxq)d
   MaxT = %(maxt)d
   Last0 = %(last0)d
   CasLoop = %(casloop)s
+  PerCall = %(percall)s
 VIEW view
 INVARIANTS %(inv)s
 CHECK_DEADLOCK FALSE
 %(extra)s"""
 ALLINV = 'SpacingInv BoundedWaitInv NoSpuriousInv'
+# Python mirror of the per-caller constants of spec/Throttle_MC.tla (x = 1..NC)
+FAM = {'MCBt2': lambda x: 2, 'MCBt123': lambda x: ((x - 1) % 3) + 1, 'MCTh4': lambda x: [4, 1],
+       'MCBtV': lambda x: [1, 1, 2, 1][(x - 1) % 4], 'MCThV': lambda x: [[4, 1], [2, 1], [2, 1], [1, 1]][(x - 1) % 4],
+       'MCBtW': lambda x: [1, 2, 1, 0][(x - 1) % 4], 'MCThW': lambda x: [[1, 1], [4, 1], [1, 2], [2, 1]][(x - 1) % 4]}
+OLD_A = dict(bt='MCBt2', th='MCTh4', si=4)      # constant threshold: every caller owes 2 ticks
+OLD_B = dict(bt='MCBt123', th='MCTh4', si=4)    # constant threshold, batches 1, 2, 3
+VAR_V = dict(bt='MCBtV', th='MCThV', si=4)      # thresholds 4, 2, 2, 1: spacings 1, 2, 4, 4
+VAR_W = dict(bt='MCBtW', th='MCThW', si=4)      # thresholds 1, 4, 1/2 (batch over threshold), 2 (batch 0)
 
 
-def cfg(nc=3, iv='MCIv', maxq=3, maxt=6, last0=0, casloop=True, inv=ALLINV, extra=''):
-    return CFG % dict(nc=nc, iv=iv, maxq=maxq, maxt=maxt, last0=last0, casloop='TRUE' if casloop else 'FALSE', inv=inv, extra=extra)
+def cfg(nc=3, bt='MCBt2', th='MCTh4', si=4, maxq=3, maxt=6, last0=0, casloop=True, percall=True, inv=ALLINV, extra=''):
+    return CFG % dict(nc=nc, bt=bt, th=th, si=si, maxq=maxq, maxt=maxt, last0=last0, casloop='TRUE' if casloop else 'FALSE',
+                      percall='TRUE' if percall else 'FALSE', inv=inv, extra=extra)
 
 
-def ivs(name, nc):
-    return [2] * nc if name == 'MCIv' else [((x - 1) % 3) + 1 for x in range(1, nc + 1)]
-
-
-def gate_scn(tr, sched, nc=3, iv='MCIv', maxq=3, last0=0, ivl=None):
-    return dict(tr=tr, mode='gate', maxq=maxq, last0=last0, iv=ivl if ivl is not None else ivs(iv, nc), sched=sched)
+def gate_scn(tr, sched, nc=3, bt='MCBt2', th='MCTh4', si=4, maxq=3, last0=0, btl=None, thl=None, **_):
+    return dict(tr=tr, mode='gate', maxq=maxq, last0=last0, si=si,
+                bt=btl if btl is not None else [FAM[bt](x) for x in range(1, nc + 1)],
+                th=thl if thl is not None else [FAM[th](x) for x in range(1, nc + 1)], sched=sched)
 
 
 def last_sched(out):
@@ -79,6 +96,94 @@ def seq_scn(tr, rng):
     return dict(tr=tr, mode='seq', thr_num=thr.numerator, thr_den=thr.denominator, interval_ms=interval_ms, maxq_ms=maxq_ms, reqs=reqs)
 
 
+NS = 1_000_000
+BUDGET = 1_900_000_000      # relative virtual times (and time + owed spacing) stay below 2^31 ns
+
+
+def owed(b, thr, interval_ms):
+    return 0 if (b == 0 or thr <= 0) else ceil(Fraction(b * interval_ms * NS) / thr)
+
+
+def gaps(rng, base_iv, maxq_ms):
+    return rng.choice([0, 0, 1, base_iv - 1, base_iv, base_iv + 1, base_iv // 2, 2 * base_iv, rng.randint(0, 2 * base_iv), maxq_ms * NS])
+
+
+def mem_thr(low, high, lwm, hwm, mem):
+    """threshold of a MemoryAdaptive rule (mirror of ThrottleProp!MemThr; only used to size gaps / the time budget)"""
+    if mem <= lwm:
+        return Fraction(low)
+    if mem >= hwm:
+        return Fraction(high)
+    return Fraction(low * (hwm - lwm) + (high - low) * (mem - lwm), hwm - lwm)
+
+
+def mem_scn(tr, rng):
+    """MemoryAdaptive + Throttling rule through api.Entry; the memory usage (hence the threshold) moves between requests"""
+    low = rng.choice([100, 100, 50, 20, 10, 4])
+    high = rng.choice([h for h in (1, 2, 5, 10, 25, 40) if h < low])
+    lwm = rng.choice([4, 1024, 1 << 20])
+    width = rng.choice([4, 8])
+    hwm = lwm + width
+    interval_ms = rng.choice([1, 10, 10, 100, 100, 1000])
+    maxq_ms = rng.choice([0, 1, 2, 5, 20, 50, 100, 500])
+    levels = [0, lwm, hwm, hwm + 7] + [lwm + k for k in range(1, width)]
+    mem = rng.choice([0, hwm + 7, rng.choice(levels)])
+    reqs, t = [], 0
+    for _ in range(rng.randint(4, 14)):
+        if rng.random() < 0.4:
+            mem = rng.choice([0, hwm + 7, rng.choice(levels)])
+        thr = mem_thr(low, high, lwm, hwm, mem)
+        b = rng.choice([0, 1, 1, 1, 1, 2, 3])
+        iv, base_iv = owed(b, thr, interval_ms), owed(1, thr, interval_ms)
+        gap = gaps(rng, base_iv, maxq_ms)
+        if t + gap + maxq_ms * NS + max(iv, 3 * base_iv) + 2 > BUDGET or iv > 1_000_000_000:
+            break
+        t += gap + maxq_ms * NS
+        reqs.append(dict(gap=gap, batch=b, mem=mem))
+    if not reqs:
+        reqs = [dict(gap=0, batch=1, mem=0)]
+    return dict(tr=tr, mode='seq', strategy='mem', low=low, high=high, lwm=lwm, hwm=hwm, interval_ms=interval_ms, maxq_ms=maxq_ms, reqs=reqs)
+
+
+def chk_scn(tr, rng):
+    """sequential DoCheck calls on one checker, each with its own threshold argument"""
+    pool = rng.choice([[Fraction(100), Fraction(10), Fraction(4), Fraction(1)],
+                       [Fraction(1, 2), Fraction(1), Fraction(2), Fraction(5, 2), Fraction(3), Fraction(4)],
+                       [Fraction(10), Fraction(25), Fraction(7, 2), Fraction(0), Fraction(1000)],
+                       [Fraction(2), Fraction(4)], [Fraction(100), Fraction(10)]])
+    interval_ms = rng.choice([1, 2, 5, 10, 10, 50, 100, 1000])
+    maxq_ms = rng.choice([0, 0, 1, 2, 5, 20, 100, 500])
+    sleep = rng.random() < 0.5
+    thr = rng.choice(pool)
+    reqs, t = [], 0
+    for _ in range(rng.randint(3, 14)):
+        if rng.random() < 0.5:
+            thr = rng.choice(pool)
+        b = rng.choice([0, 1, 1, 1, 2, 3])
+        iv = owed(b, thr, interval_ms)
+        base_iv = owed(1, thr, interval_ms) if thr > 0 else interval_ms * NS
+        gap = gaps(rng, base_iv, maxq_ms)
+        if t + gap + maxq_ms * NS + max(iv, 3 * base_iv) + 2 > BUDGET or iv > 1_000_000_000:
+            break
+        t += gap + (maxq_ms * NS if sleep else 0)
+        reqs.append(dict(gap=gap, batch=b, tn=thr.numerator, td=thr.denominator))
+    if not reqs:
+        reqs = [dict(gap=0, batch=1, tn=1, td=1)]
+    return dict(tr=tr, mode='chk', interval_ms=interval_ms, maxq_ms=maxq_ms, sleep=sleep, reqs=reqs)
+
+
+def var_gate_scn(tr, rng):
+    """random schedule, every caller with its own threshold; si / threshold is a whole number of ticks for every
+    threshold of the scenario, so that every wait is a whole number of ticks"""
+    si = rng.choice([4, 4, 8])
+    pool = [[si, 1], [si, 1], [si // 2, 1], [si // 2, 1], [si // 4, 1], [1, 1] if si == 8 else [1, 2]]
+    nc = rng.choice([2, 3, 3, 4, 5])
+    thl = [rng.choice(pool) for _ in range(nc)]
+    btl = [rng.choice([0, 1, 1, 1, 2, 2, 3]) for _ in range(nc)]
+    sched = [rng.choice([0, 0] + list(range(1, nc + 1)) * 3) for _ in range(rng.randint(8, 45))]
+    return gate_scn(tr, sched, si=si, maxq=rng.choice([0, 1, 2, 3, 5, 8]), last0=rng.choice([0, 0, 1, 2, 3]), btl=btl, thl=thl)
+
+
 def run_and_validate(c, drv, scns, tag):
     sp = os.path.join(c.scratch, tag + '.scn.ndjson')
     tp = os.path.join(c.scratch, tag + '.trace.ndjson')
@@ -96,6 +201,19 @@ def run_and_validate(c, drv, scns, tag):
 
 def classify(exp):
     return None
+
+
+def describe(s):
+    if s['mode'] == 'gate':
+        if 'bt' in s:
+            return 'forced schedule %s (batches=%s thresholds=%s si=%s maxq=%s last0=%s)' % (s['sched'], s['bt'], s['th'], s['si'], s['maxq'], s['last0'])
+        return 'forced schedule %s (iv=%s maxq=%s)' % (s['sched'], s['iv'], s['maxq'])
+    if s['mode'] == 'chk':
+        return 'sequential DoCheck calls with per-call thresholds interval=%sms maxq=%sms sleep=%s %s' % (s['interval_ms'], s['maxq_ms'], s.get('sleep'), s['reqs'])
+    if s.get('strategy') == 'mem':
+        return ('sequential history through api.Entry, MemoryAdaptive+Throttling rule low=%s high=%s water marks %s..%s interval=%sms maxq=%sms %s'
+                % (s['low'], s['high'], s['lwm'], s['hwm'], s['interval_ms'], s['maxq_ms'], s['reqs']))
+    return 'sequential history thr=%s/%s interval=%sms maxq=%sms %s' % (s['thr_num'], s['thr_den'], s['interval_ms'], s['maxq_ms'], s['reqs'])
 
 
 def handle(c, drv, scns, mism, tag):
@@ -116,14 +234,14 @@ def handle(c, drv, scns, mism, tag):
         if key and c.is_known(key):
             c.known(key, c.kf[key]['description'])
         else:
-            what = ('forced schedule %s (iv=%s maxq=%s)' % (s['sched'], s['iv'], s['maxq'])) if s['mode'] == 'gate' else \
-                   ('sequential history thr=%s/%s interval=%sms maxq=%sms %s' % (s['thr_num'], s['thr_den'], s['interval_ms'], s['maxq_ms'], s['reqs']))
+            what = describe(s)
             c.violation('real throttling checker violates C10 under %s: %s' % (what, exp[:500]), rp)
 
 
 def binding_selftest(c, tp):
-    """shorten the wait of an admitted, waiting request to 0 (it then shares the slot of its predecessor) or make a
-    request wait beyond the limit: every corrupted trace must be rejected"""
+    """shorten the wait of an admitted, waiting request to 0 (it then shares the slot of its predecessor), make a
+    request wait beyond the limit, or quarter the recorded threshold of a waiting request (it then owes four times the
+    spacing it was given): every corrupted trace must be rejected"""
     lines = [json.loads(l) for l in open(tp)]
     traces, cur = [], None
     for e in lines:
@@ -131,7 +249,7 @@ def binding_selftest(c, tp):
             cur = []
             traces.append(cur)
         cur.append(e)
-    out, want = [], 0
+    out, want, kinds = [], 0, [0, 0, 0]
     for t in traces:
         if want >= 30:
             break
@@ -142,7 +260,13 @@ def binding_selftest(c, tp):
         maxq = t[0]['maxq']
         for e in t:
             if e['op'] == 'ret' and e['res'] == 'pass' and e['w'] > 0:
-                e['w'] = maxq + 1 if want % 2 else 0
+                iv = [x for x in t if x['op'] == 'inv' and x['p'] == e['p']][-1]
+                if want % 3 == 2 and 'tn' in iv:
+                    iv['td'] *= 4
+                    kinds[2] += 1
+                else:
+                    e['w'] = maxq + 1 if want % 3 == 1 else 0
+                    kinds[want % 3 == 1] += 1
                 break
         out += t
         want += 1
@@ -153,7 +277,7 @@ def binding_selftest(c, tp):
     mism, consumed, r = c.validate('Throttle_Trace', cp, len(out))
     if len({m[0] for m in mism}) != want:
         raise MachineryError('binding self-test failed: %d corrupted traces, %d rejected' % (want, len(mism)))
-    c.cov['binding_selftest'] = '%d corrupted traces (wait zeroed / wait beyond the limit), all rejected' % want
+    c.cov['binding_selftest'] = '%d corrupted traces (%d wait zeroed / %d wait beyond the limit / %d threshold of the request quartered), all rejected' % (want, kinds[0], kinds[1], kinds[2])
     c.log('binding self-test: %d corrupted traces, all rejected' % want)
 
 
@@ -169,34 +293,41 @@ def check(c, tier, replay):
         return
     thorough = tier == 'thorough'
     # S1 ---------------------------------------------------------------------------------------
-    configs = [dict(nc=3, iv='MCIv', maxq=3, maxt=6, last0=0), dict(nc=3, iv='MCIv123', maxq=2, maxt=5, last0=2),
-               dict(nc=3, iv='MCIv123', maxq=0, maxt=5, last0=0)]
+    base = [dict(nc=3, maxq=3, maxt=6, last0=0, **OLD_A), dict(nc=3, maxq=2, maxt=5, last0=2, **OLD_B),
+            dict(nc=3, maxq=0, maxt=5, last0=0, **OLD_B)]
+    # the threshold differs from caller to caller
+    var = [dict(nc=3, maxq=3, maxt=6, last0=0, **VAR_V), dict(nc=4, maxq=2, maxt=5, last0=2, **VAR_W)]
+    configs = base + var
     if thorough:
-        configs += [dict(nc=4, iv='MCIv', maxq=2, maxt=5, last0=0), dict(nc=4, iv='MCIv123', maxq=3, maxt=4, last0=2)]
+        configs += [dict(nc=4, maxq=2, maxt=5, last0=0, **OLD_A), dict(nc=4, maxq=3, maxt=4, last0=2, **OLD_B),
+                    dict(nc=4, maxq=3, maxt=6, last0=0, **VAR_V), dict(nc=4, maxq=4, maxt=6, last0=0, **VAR_W)]
     for k in configs:
         r = c.model_check('Throttle_MC', cfg_text=cfg(**k), workers=12, timeout=3000, heap='16g')
         if not r.completed:
-            c.inconclusive.append('Throttle.tla (compare-and-swap loop) violates %s for %s' % (r.violated, k))
+            c.inconclusive.append('Throttle.tla (compare-and-swap loop, per-call threshold) violates %s for %s' % (r.violated, k))
     c.cov['exhaustive'] = True
     scns, tr, muts = [], 0, []
-    for inv, k in (('SpacingInv', dict(nc=3, iv='MCIv', maxq=3, maxt=6, last0=0)), ('NoSpuriousInv', dict(nc=3, iv='MCIv123', maxq=2, maxt=5, last0=2))):
-        r = c.tlc('Throttle_MC', cfg_text=cfg(casloop=False, inv=inv, **k), workers=4, timeout=900, count=False)
+    for name, mut, inv, k in (('pinned algorithm (CasLoop=FALSE)', dict(casloop=False), 'SpacingInv', base[0]),
+                              ('pinned algorithm (CasLoop=FALSE)', dict(casloop=False), 'NoSpuriousInv', base[1]),
+                              ('interval derived once per checker (PerCall=FALSE)', dict(percall=False), 'SpacingInv', var[0]),
+                              ('interval derived once per checker (PerCall=FALSE)', dict(percall=False), 'NoSpuriousInv', var[0])):
+        r = c.tlc('Throttle_MC', cfg_text=cfg(inv=inv, **mut, **k), workers=4, timeout=900, count=False)
         if r.violated != inv:
-            raise MachineryError('vacuity guard: the pinned algorithm (CasLoop=FALSE) must violate %s, got %s' % (inv, r.violated or r.error))
+            raise MachineryError('vacuity guard: the %s must violate %s, got %s' % (name, inv, r.violated or r.error))
         tr += 1
-        scns.append(gate_scn(tr, last_sched(r.out) + [1, 2, 3] * 6, nc=k['nc'], iv=k['iv'], maxq=k['maxq'], last0=k['last0']))
-        muts.append('%s: %s' % (inv, scns[-1]['sched']))
+        scns.append(gate_scn(tr, last_sched(r.out) + [1, 2, 3] * 6, **k))
+        muts.append('%s: %s: %s' % (name, inv, scns[-1]['sched']))
     c.cov['spec_mutants'] = muts
-    c.log('S1 vacuity guard: pinned algorithm violates %s' % muts)
+    c.log('S1 vacuity guard: spec-level mutants refuted: %s' % muts)
     # S2 ---------------------------------------------------------------------------------------
-    for k in configs[:3]:
+    for k in base + var:
         num = 150 if not thorough else 1500
         r = c.tlc('Throttle_Gen', cfg_text=cfg(extra='ACTION_CONSTRAINT Emit\n', **k).replace('INVARIANTS ' + ALLINV, ''),
                   workers=1, timeout=900, count=False, args=['-simulate', 'num=%d' % num, '-depth', '40', '-seed', str(c.seed)])
         hs = maximal(r.json_prints())
         for sch in hs:
             tr += 1
-            scns.append(gate_scn(tr, sch, nc=k['nc'], iv=k['iv'], maxq=k['maxq'], last0=k['last0']))
+            scns.append(gate_scn(tr, sch, **k))
         c.log('S2 TLC simulation %s: %d schedules' % (k, len(hs)))
     ntlc = len(scns)
     rng = c.rng
@@ -205,11 +336,22 @@ def check(c, tier, replay):
         nc = rng.choice([2, 3, 3, 4, 5])
         ivl = [rng.choice([1, 2, 2, 3]) for _ in range(nc)]
         sched = [rng.choice([0, 0] + list(range(1, nc + 1)) * 3) for _ in range(rng.randint(8, 45))]
-        scns.append(gate_scn(tr, sched, maxq=rng.choice([0, 1, 2, 3, 5]), last0=rng.choice([0, 0, 1, 2, 3]), ivl=ivl))
+        scns.append(gate_scn(tr, sched, maxq=rng.choice([0, 1, 2, 3, 5]), last0=rng.choice([0, 0, 1, 2, 3]), btl=ivl, thl=[[4, 1]] * nc))
     ngate = len(scns)
     for i in range(1500 if not thorough else 20000):
         tr += 1
         scns.append(seq_scn(tr, rng))
+    nseq = len(scns)
+    # per-request thresholds: concurrent callers, MemoryAdaptive rule end to end, direct calls of the checker
+    for i in range(800 if not thorough else 10000):
+        tr += 1
+        scns.append(var_gate_scn(tr, rng))
+    for i in range(700 if not thorough else 10000):
+        tr += 1
+        scns.append(mem_scn(tr, rng))
+    for i in range(700 if not thorough else 10000):
+        tr += 1
+        scns.append(chk_scn(tr, rng))
     # S3 + S4 ----------------------------------------------------------------------------------
     first = True
     for i in range(0, len(scns), 4000):
@@ -222,18 +364,38 @@ def check(c, tier, replay):
             first = False
     c.cov['distinct_nontrivial'] = len({json.dumps(s, sort_keys=True) for s in
                                         [dict(x, tr=0) for x in scns if (x['mode'] == 'gate' and len(set(x['sched']) - {0}) > 1) or
-                                         (x['mode'] == 'seq' and len(x['reqs']) > 1)]})
+                                         (x['mode'] in ('seq', 'chk') and len(x['reqs']) > 1)]})
+
+    def nthr(x):    # distinct thresholds handed to one checker
+        if x['mode'] == 'gate':
+            return len({tuple(t) for t in x['th']})
+        if x['mode'] == 'chk':
+            return len({(q['tn'], q['td']) for q in x['reqs']})
+        if x.get('strategy') == 'mem':
+            return len({mem_thr(x['low'], x['high'], x['lwm'], x['hwm'], q['mem']) for q in x['reqs']})
+        return 1
+    c.cov['scenarios_with_varying_threshold'] = sum(1 for x in scns if nthr(x) > 1)
     c.cov['rule'] = ('gate scenario = schedule forced on flow.ThrottlingChecker.DoCheck at the th.* yield points (%d from TLC: simulation of '
-                     'Throttle + counterexamples of the pinned algorithm; %d seeded random); sequential scenario = seeded random throttling rule + '
-                     'arrival history in virtual ns through api.Entry (%d); non-trivial = distinct scenario with >= 2 callers moving / >= 2 requests'
-                     % (ntlc, ngate - ntlc, len(scns) - ngate))
+                     'Throttle + counterexamples of the spec-level mutants; %d seeded random with a constant threshold, %d with per-caller thresholds); '
+                     'sequential scenario = arrival history in virtual ns: seeded random Direct throttling rule through api.Entry (%d), '
+                     'MemoryAdaptive+Throttling rule with the memory usage moved between requests through api.Entry (%d), DoCheck calls with '
+                     'per-call thresholds (%d); non-trivial = distinct scenario with >= 2 callers moving / >= 2 requests'
+                     % (ntlc, ngate - ntlc, sum(1 for x in scns[nseq:] if x['mode'] == 'gate'), nseq - ngate,
+                        sum(1 for x in scns if x.get('strategy') == 'mem'), sum(1 for x in scns if x['mode'] == 'chk')))
     c.sample(scns[0])
     c.sample(scns[ngate - 1])
+    c.sample(scns[nseq - 1])
+    c.sample(scns[nseq])
+    c.sample([x for x in scns if x.get('strategy') == 'mem'][0])
     c.sample(scns[-1])
-    c.assumptions += ['spacing entitlement iv = ceil(batch * interval / threshold) computed exactly (rationals) by the generator; the real code may round '
+    c.assumptions += ['spacing entitlement iv = ceil(batch * interval / threshold of that request) computed exactly (integers) by the trace spec; the real code may round '
                       'one ns up (float): NoSpuriousReject is judged with 1 ns slack in sequential traces',
                       'relative virtual times stay below 2^31 ns in sequential traces (TLC integers)',
                       'thresholds so small that the spacing overflows int64 are outside the modelled domain',
+                      'MemoryAdaptive rules: the effective threshold is ThrottleProp!MemThr(rule, published memory usage); water marks are a power '
+                      'of two apart so that the interpolation of the real code is exact in float64; WarmUp + Throttling is not driven end to end '
+                      '(its moving threshold is covered by the per-call thresholds of the chk / gate scenarios)',
+                      'gate scenarios keep statInterval / threshold a whole number of ticks for every threshold of the scenario',
                       'exhaustive interleavings only for the bounded configurations listed in tlc_runs']
 
 
